@@ -88,6 +88,24 @@ def norm_tr_segs(segs):
     return out
 
 
+def unwrap(t):
+    if t[0] != "N":
+        return t
+    _, k, atoms, kids = t
+    if k in ("Type::Paren", "Type::Group") and kids:
+        return unwrap(kids[-1])
+    return ("N", k, atoms, [unwrap(x) for x in kids])
+
+
+def unwrap_header(item):
+    """an ItemImpl with the wrappers of its trait path and self type removed"""
+    if item[0] != "N" or item[1] != "ItemImpl" or len(item[3]) < 7:
+        return item
+    k = list(item[3])
+    k[4], k[5] = unwrap(k[4]), unwrap(k[5])
+    return ("N", item[1], item[2], k)
+
+
 def validate(rep, exe, plans, prop, judge=True, expand=True, excuse=None):
     """returns per plan a dict with the abstract grouping (for C11/C05) or None"""
     if not plans:
@@ -108,7 +126,9 @@ def validate(rep, exe, plans, prop, judge=True, expand=True, excuse=None):
             continue
         dumps.append(d)
         for fi, (g, fam) in enumerate(zip(d.groups, d.families)):
-            req = "family " + " ".join([sexpr(g["gid"]), sexpr(g["idents"]), sexpr(g["payloads"]), sexpr(fam["main"])] + [sexpr(x) for x in g["items"]])
+            # headers are compared up to type parentheses / invisible groups: `(X)` and `X` are the same Rust type
+            # (different impl-group ids that generalise each other; rustc's reading of parentheses is part of the trusted base)
+            req = "family " + " ".join([sexpr(unwrap(g["gid"])), sexpr(g["idents"]), sexpr(g["payloads"]), sexpr(fam["main"])] + [sexpr(unwrap_header(x)) for x in g["items"]])
             lean_reqs.append(req)
             where.append((pi, fi))
     lres = C.run_lean(lean_reqs) if lean_reqs else []
